@@ -50,10 +50,10 @@ pub fn parse_local_segments(local: &str) -> Vec<LocalSegment> {
     normalized
         .split('.')
         .map(|part| {
-            if !part.is_empty() && part.chars().all(|c| c.is_ascii_digit()) {
-                LocalSegment::new_uint(part.parse().unwrap_or(0))
-            } else {
-                LocalSegment::try_new_str(part.to_string()).unwrap()
+            // A numeric part above u32::MAX stays a string segment instead of collapsing to 0
+            match part.parse::<u32>() {
+                Ok(num) if part.chars().all(|c| c.is_ascii_digit()) => LocalSegment::new_uint(num),
+                _ => LocalSegment::try_new_str(part.to_string()).unwrap(),
             }
         })
         .collect()
